@@ -280,11 +280,29 @@ def gen_linsolve(rng, tier):
     return _gen_linalg(rng, tier, "linsolve", True)
 
 
+# linbig alg csc L nb n density% seed : a large system generated inside the driver from the seed (implementation oracle
+# A x = b only; the extracted model does not run it).  Sizes chosen so that the number of stored elements times the
+# group width passes 2^16 and 2^17: index tables narrower than size_t would wrap there.
+def gen_linbig(rng, tier):
+    out = []
+    shapes = [(130, 100, 4), (140, 100, 4), (260, 100, 0), (200, 60, 3)]
+    if tier != "quick":
+        shapes += [(370, 100, 0), (190, 100, 4), (300, 30, 2), (150, 100, 3)]
+    for (n, dens, L) in shapes:
+        # the Mozart constructors take minutes at this size (their symbolic phase is far slower than Doolittle's):
+        # Doolittle and DoolittleInPlace everywhere, the Mozart pair once in the thorough tier
+        algs = [0, 2] + ([1, 3] if tier != "quick" and (n, L) == (130, 4) else [])
+        for alg in algs:
+            nb = 1 if L == 0 else rng.choice([1, L + 1])
+            out.append("linbig %d %d %d %d %d %d %d" % (alg, rng.randrange(2), L, nb, n, dens, rng.randrange(1, 10**6)))
+    return out
+
+
 def lu_histogram(lines):
     h = {"alg": {}, "n": {}, "L": {}, "order": {}, "partial_group": 0}
     for l in lines:
         t = l.split()
-        if t[0] not in ("lu", "linsolve"):
+        if t[0] not in ("lu", "linsolve", "linbig"):
             continue
         alg, csc, L, nb, n = map(int, t[1:6])
         h["alg"][str(alg)] = h["alg"].get(str(alg), 0) + 1
